@@ -91,12 +91,13 @@ def check_cfg(ctx, fx, cfg):
                     ctx.require(ok, "R17.1", "%s-loop-stopped-on-same-actor@%s" % (kind, cfg), "stopped() acts on a different value than the one returned", fn=f["def"], site=t["l"])
     # R17.4 the actor value the loop runs (and hands back) is the one given to the spawn entry point — or a fresh Default
     # where the API says so — handed over unmodified
-    makers = graph.forwarding_closure(fx, {f["parent"]: 1 for f, _k in loops.find_loops(fx)}, roots, lambda g_: ctx.body(fx, g_))
+    makers = graph.forwarding_closure(fx, loops.maker_params(fx, "actor"), roots, lambda g_: ctx.body(fx, g_))
     n_sites = 0
     for g, bi_, t_ in graph.all_calls(fx, lambda x: x.get("callee") in makers):
         gb = ctx.body(fx, g)
         n_sites += 1
-        rs = roots(gb, t_["args"][makers[t_["callee"]]])
+        mop = graph.maker_operand(t_, makers)
+        rs = roots(gb, mop) if mop is not None else set()
         kinds = {("default" if r.kind == "call:core::default::Default::default" else r.kind) for r in rs}
         # an entry point that is given no actor value (no parameter of the actor type) can only run a fresh default one
         rootf = fx.fn(g.get("root", g["def"])) or g
